@@ -646,6 +646,14 @@ pub fn worker_main(scn: &Value, report: &Value, shared_path: Option<String>, out
                     if rec["outcome"] == "ok" || scn.get("oracles_on_error").is_some() {
                         rec["oracle"] = collect_oracles(report, pid, writer.blamed_thread, &p, img, scn.get("want_regs").and_then(|v| v.as_bool()).unwrap_or(false));
                     }
+                    // small memory-list regions verbatim (counters of spinner targets)
+                    if let Some(regs) = p.streams.get("memlist").and_then(|m| m["regions"].as_array()) {
+                        let small: Vec<Value> = regs.iter().filter_map(|r| {
+                            let (s, z, rv) = (r["start"].as_u64()?, r["size"].as_u64()? as usize, r["rva"].as_u64()? as usize);
+                            if z <= 64 { img.get(rv..rv + z).map(|b| json!({"start": s, "hex": mdparse::hexs(b)})) } else { None }
+                        }).collect();
+                        rec["mem_small"] = json!(small);
+                    }
                     // stack bytes from SP upward vs target memory, sanitised words etc. are derived from these
                     if scn.get("want_stacks").and_then(|v| v.as_bool()).unwrap_or(false) {
                         let mut stacks = Vec::new();
